@@ -1,4 +1,5 @@
 import QuiverModel.Lemmas.Sys.Faithful
+import QuiverModel.Lemmas.Sys.Stored
 /-
 C04 — Messages: exactly-once, per-sender FIFO, and no lost wake-ups.
 
@@ -444,5 +445,46 @@ theorem stale_failure_suppresses_wakeup :
       ∧ (∀ w, w < 2 → (bad.wk w).hasTimeout bad.prog = false))
     ∧ ((good.wk 0).procs 0).map (·.result) = some (some (.ok [-1, 0, -1, 2, 0, -2, -1, -2, -2])) := by
   decide +kernel
+
+/-! ### await answers end to end -/
+
+/-- The faithful-answer invariant (`TInv`) after every choice sequence. -/
+theorem stored_invariant (n : Nat) (prog : Prog) (req : Nat) (hn : 0 < n) (hwf : ProgWF prog) (cs : List Choice) :
+    PreStart (reach n prog req cs) ∨ TInv (reach n prog req cs) :=
+  invariant_from_init Rules.current TInv (fun _ h => TInv.of_started h) (fun _ m h => h.micro m) n prog req hn hwf cs
+
+/-- **Await answers are faithful end to end**: a result stored in an awaiter's `awaiting` map —
+whether it came through the local notification of `Executor::step`, or through
+ProcessResults → the environment's pending answers (merged) → UpdateAwaitResults — is the result
+the awaited process really has, on whichever worker it lives; so is every result still travelling
+in a pending answer or an UpdateAwaitResults command. -/
+theorem stored_results_faithful (n : Nat) (prog : Prog) (req : Nat) (hn : 0 < n) (hwf : ProgWF prog) (cs : List Choice) :
+    (∀ w a x t v, ((reach n prog req cs).wk w).procs a = some x → (t, some v) ∈ x.awaiting →
+      ∃ w', ((reach n prog req cs).wk w').resultOf t = some (.ok v)) ∧
+    (∀ w a rs t r, Cmd.updateAwait a rs ∈ (reach n prog req cs).cmdQ w → (t, some r) ∈ rs →
+      ∃ w', ((reach n prog req cs).wk w').resultOf t = some r) ∧
+    (∀ a pa w rs t r, (reach n prog req cs).env.pending a = some pa → (w, rs) ∈ pa.responses → (t, some r) ∈ rs →
+      ∃ w', ((reach n prog req cs).wk w').resultOf t = some r) := by
+  rcases stored_invariant n prog req hn hwf cs with h | h
+  · refine ⟨?_, ?_, ?_⟩
+    · intro w a x t v hx hm
+      rw [h.wk] at hx
+      by_cases e : w = 0
+      · subst e
+        simp only [upd_same, W0init, WorkerSt.setProc, WorkerSt.empty, upd_apply] at hx
+        split at hx
+        · simp only [Option.some.injEq] at hx; subst hx; simp [Proc.sleeping, Proc.fresh] at hm
+        · cases hx
+      · simp [e, WorkerSt.empty] at hx
+    · intro w a rs t r hm
+      have := (h.inert w) _ hm
+      simp [cmdMsg, cmdCreate, cmdNotify] at this
+      by_cases ew : w = 0
+      · subst ew; obtain ⟨k, req', hq⟩ := h.cmd0; rw [hq] at hm; simp at hm
+      · have := h.cmdOther w ew _ hm; cases this
+    · intro a pa w rs t r hp; rw [h.pending] at hp; cases hp
+  · exact ⟨fun w a x t v hx hm => h.core.stored w a x t v hx hm,
+           fun w a rs t r hm ht => h.core.updc w a rs t r hm ht,
+           fun a pa w rs t r hp hm ht => h.core.pend a pa w rs t r hp hm ht⟩
 
 end C04
